@@ -96,8 +96,10 @@ func Families(tier string, seed int64) []*spec.Program {
 	{
 		// "Gamma" is not selected, "XGamma" and "AlphaBeta" are: a name that is a suffix / prefix of a selected one
 		v := variant(base, "f_multi_selsfx", "selection", "C01", "C12")
-		v.Spec.Messages = append(v.Spec.Messages, M("XGamma", nil, F("Label", "string"), F("N", "int32")), M("AlphaBeta", nil, F("Q", "string")))
-		v.Config.Types = []string{"XGamma", "AlphaBeta"}
+		v.Spec.Messages = append(v.Spec.Messages, M("XGamma", nil, F("Label", "string"), F("N", "int32")), M("AlphaBeta", nil, F("Q", "string")),
+			// the field Holder.Meta has the name of the selected type declared after it
+			M("Holder", nil, F("Name", "string"), F("Meta", "msg:Meta"), F("Metas", "msg:Meta", rep())), M("Meta", nil, F("K", "string"), F("V", "int64")))
+		v.Config.Types = []string{"XGamma", "AlphaBeta", "Holder", "Meta"}
 		v.Config.RequiredFields, v.Config.ComputedFields = nil, nil
 		v.NoRun = true
 		out = append(out, v)
@@ -153,6 +155,25 @@ func Families(tier string, seed int64) []*spec.Program {
 				sepBases = append(sepBases, a)
 			}
 		}
+	}
+	{
+		// a base with map options under plain keys, and its separate-package twin that carries the same keys once more,
+		// qualified with the package name and with other values: only the documented key forms count (a
+		// "normalisation" of such keys would make two entries of a map collide)
+		kb := variant(base, "f_keys", "base", "C01", "C13")
+		kb.Family = "f_keys"
+		kb.Config.NameOverrides = map[string]string{"Alpha.Id": "ident", "Beta.Count": "how_many", "Leaf.Str": "text"}
+		kb.Config.Validators = map[string][]string{"Alpha.Id": {spec.SupportPkg + `.V("real")`}}
+		out = append(out, kb)
+		kv := variant(kb, "f_keys_sep", "separate-package", "C01", "C13", "C14")
+		kv.Family = "f_keys"
+		kv.Config.DefaultPackageName = "verifcorpus/f_keys_sep/pk"
+		kv.Config.TargetPackageName = "tf"
+		for _, k := range []string{"Alpha.Id", "Beta.Count", "Leaf.Str"} {
+			kv.Config.NameOverrides["pk."+k] = "decoy_" + strings.ToLower(strings.ReplaceAll(k, ".", "_"))
+		}
+		kv.Config.Validators["pk.Alpha.Id"] = []string{spec.SupportPkg + `.V("decoy-pk")`}
+		out = append(out, kv)
 	}
 	for _, b := range sepBases {
 		v := variant(b, b.ID+"_sep", "separate-package", "C01", "C13")
@@ -336,10 +357,10 @@ func Families(tier string, seed int64) []*spec.Program {
 	// ---- C18: one unmappable field at some depth
 	{
 		type inj struct {
-			msg   string
-			field spec.Field
+			msg           string
+			field         spec.Field
 			notime, nodur bool
-			roots []string
+			roots         []string
 		}
 		injs := []inj{
 			{"Leaf", F("BadTime", "timestamp", stdtime()), true, false, []string{"Alpha", "Beta"}},
@@ -395,6 +416,32 @@ func Families(tier string, seed int64) []*spec.Program {
 			ex.Unmappable, ex.UnmappableRoots = "", nil
 			ex.NoRun = true
 			out = append(out, ex)
+			// the field excluded by PATH at the first place only where its message is reached: the other places still
+			// reach it, so the selected types stay unmappable
+			if in.msg == "Leaf" || in.msg == "Mid" {
+				px := variant(bad, fmt.Sprintf("f_unmap%d_pexcl", i), "unmappable", "C18")
+				px.Family = ref.Family
+				excluded := ""
+				for _, root := range px.Config.Types {
+					for _, o := range px.Spec.Occurrences(root) {
+						if o.MsgKey == in.msg+"."+f.Name && excluded == "" {
+							excluded = o.Path
+						}
+					}
+				}
+				px.Config.ExcludeFields = append(px.Config.ExcludeFields, excluded)
+				px.UnmappableRoots = nil
+				for _, root := range px.Config.Types {
+					for _, o := range px.Spec.Occurrences(root) {
+						if o.MsgKey == in.msg+"."+f.Name && o.Path != excluded {
+							px.UnmappableRoots = append(px.UnmappableRoots, root)
+							break
+						}
+					}
+				}
+				px.NoRun = true
+				out = append(out, px)
+			}
 		}
 	}
 
